@@ -140,18 +140,58 @@ def load_store(path):
 
 
 # --------------------------------------------------------------------------- rewrites
-def rewrite_body(body, rewrites):
+def rewrite_body(body, rewrites, float_params=()):
     """rewrite 5: `a %= b;` -> `a = a % b;` (also other compound forms Verus rejects)"""
     def repl(m):
         rewrites.add('compound-rem-assign')
         return '%s = %s %% %s;' % (m.group(1), m.group(1), m.group(2))
     body = re.sub(r'\b([A-Za-z_][A-Za-z0-9_]*)\s*%=\s*([^;]+);', repl, body)
 
-    # rewrite 6: `X as f64 / Y as f64` (X, Y integer-valued names) -> named IEEE wrappers with uninterpreted specs
-    def ieee(m):
+    return rewrite_float(body, rewrites, float_params)
+
+
+_CALL = r'ieee_\w+\((?:[^()]|\((?:[^()]|\((?:[^()]|\([^()]*\))*\))*\))*\)'
+
+
+def rewrite_float(body, rewrites, float_params=()):
+    """rewrite 6 (`ieee-ops-named`): Verus leaves every operation on `f64` unspecified.  Each IEEE operation in a
+    body is replaced by a named wrapper (external_body, uninterpreted spec: the operation is a function of its
+    operands): `X as f64` (X integer) -> ieee_from_i64, `a * b` / `a / b` -> ieee_mul / ieee_div,
+    `.round()` -> ieee_round, `.is_infinite()` / `.is_nan()` -> ieee_is_infinite / ieee_is_nan,
+    `a as i64|i32` -> ieee_to_i64 / ieee_to_i32, `a == 0.0` -> ieee_is_zero, `-a` -> ieee_neg.
+    Which names are doubles is inferred mechanically: parameters typed f64 and `let` bindings of a rewritten
+    expression.  An operation on doubles that none of these shapes covers is left alone and stays unproved."""
+    if 'f64' not in body and not float_params:
+        return body
+    floats = set(float_params)
+    orig = body
+    for _ in range(12):
+        before = body
+        names = '|'.join(sorted(re.escape(n) for n in floats)) or '(?!x)x'
+        atom = r'(?:\b(?:%s)\b(?!\s*\()|%s)' % (names, _CALL)
+        # integer -> double
+        def conv(m):
+            base = m.group(1).split('.')[0].split('::')[0]
+            if base in floats or m.group(1).startswith('ieee_'):
+                return m.group(0)
+            return 'ieee_from_i64(%s as i64)' % m.group(1)
+        body = re.sub(r'((?<![\w.)])[A-Za-z_][\w:]*(?:\.\w+\(\))*)\s+as\s+f64\b', conv, body)
+        body = re.sub(r'(?<![\w>])\(\s*(%s)\s*\)' % atom, r'\1', body)              # (atom) -> atom, never a call's argument list
+        body = re.sub(r'(%s)\s*\*\s*(%s)' % (atom, atom), r'ieee_mul(\1, \2)', body, count=1)
+        body = re.sub(r'(%s)\s*/\s*(%s)' % (atom, atom), r'ieee_div(\1, \2)', body, count=1)
+        body = re.sub(r'(%s)\.round\(\)' % atom, r'ieee_round(\1)', body)
+        body = re.sub(r'(%s)\.is_infinite\(\)' % atom, r'ieee_is_infinite(\1)', body)
+        body = re.sub(r'(%s)\.is_nan\(\)' % atom, r'ieee_is_nan(\1)', body)
+        body = re.sub(r'(%s)\s+as\s+i64\b' % atom, r'ieee_to_i64(\1)', body)
+        body = re.sub(r'(%s)\s+as\s+i32\b' % atom, r'ieee_to_i32(\1)', body)
+        body = re.sub(r'(%s)\s*==\s*0\.0\b' % atom, r'ieee_is_zero(\1)', body)
+        body = re.sub(r'(?<=[(,=])\s*-\s*(%s)' % atom, r'ieee_neg(\1)', body)
+        for m in re.finditer(r'\blet\s+(?:mut\s+)?(\w+)\s*=\s*(%s)\s*;' % atom, body):
+            floats.add(m.group(1))
+        if body == before:
+            break
+    if body != orig:
         rewrites.add('ieee-ops-named')
-        return 'ieee_div(ieee_from_i64(%s as i64), ieee_from_i64(%s as i64))' % (m.group(1), m.group(2))
-    body = re.sub(r'\b([A-Za-z_][A-Za-z0-9_:]*)\s+as\s+f64\s*/\s*([A-Za-z_][A-Za-z0-9_:]*)\s+as\s+f64\b', ieee, body)
     return body
 
 
@@ -312,7 +352,8 @@ def emit_fn(unit, mod, scope_key, it, entries, indent, in_trait_impl, self_is_ne
     if ent.mode == 'verify':
         for n in param_names_of_newtypes(f.params, self_is_newtype):
             ghosts.append('use_type_invariant(%s);' % n)
-    body = rewrite_body(f.body, rewrites)
+    float_params = [pn.strip().split(':')[0].strip() for pn in rustsrc.split_params(f.params) if re.search(r':\s*f64\s*$', pn.strip())]
+    body = rewrite_body(f.body, rewrites, float_params)
     if ent.mode == 'verify' and (ghosts or ent.proof.strip()):
         unit.add(indent + '    proof {')
         for g in ghosts:
